@@ -10,6 +10,7 @@ import RbpfModel.Model.DriveText
 import RbpfModel.Model.DriveHelpers
 import RbpfModel.Model.DriveApi
 import RbpfModel.Model.DriveXadd
+import RbpfModel.Model.DriveX86
 open Rbpf Rbpf.Hex
 
 def insnStr (i : Insn) : String :=
@@ -98,6 +99,7 @@ def handle (toks : List String) : String :=
   | "helper" :: rest => Drive.handleHelper rest
   | ["verify", prog] => Drive.handleVerify prog
   | "exec" :: rest => Drive.handleExec rest
+  | "x86" :: rest => Drive.handleX86 rest
   | _ => "bad-op"
 
 partial def loop (h : IO.FS.Stream) (out : IO.FS.Stream) : IO Unit := do
